@@ -620,6 +620,36 @@ def observe(cirq, V, op):
     return d
 
 
+def struct_row_text(r):
+    pairs = lambda l, fa, fb: gL(l, lambda p: f'({fa(p[0])}, {fb(p[1])})')
+    o, t = r['obs'], r['tr']
+    return '(' + ', '.join([
+        gOp(r['rec']),
+        '(' + ', '.join([gRes(o['shallow'], gCirc), gRes(o['deep'], gCirc), gRes(o['mkeys'], lambda l: gL(l, gK)),
+                         gRes(o['ckeys'], lambda l: gL(l, gK)), gRes(o['pnames'], lambda l: gL(l, gS)),
+                         gL(o['qubits'], Z), gB(o['is_meas']), gRes(o['names'], lambda l: gL(l, gS))]) + ')',
+        '(' + ', '.join([pairs(r['g'], Z, Z), pairs(r['m2'], gS, gS), pairs(r['pm2'], gS, gP), gL(r['path'], gS),
+                         gL(r['bind'], gK)]) + ')',
+        '(' + ', '.join([gRes(t['qmap'], gOp), gRes(t['kmap'], gOp), gRes(t['resolve'], gOp), gRes(t['rescope'], gOp),
+                         gRes(t['inv'], gOp)]) + ')']) + ')'
+
+
+def transforms(cirq, V, op, g, m2, pm2, path, bind):
+    tr = {}
+    tr['qmap'] = attempt(lambda: V.dop(op.transform_qubits(lambda q: V.q(g.get(q.x, q.x)))))
+    tr['kmap'] = attempt(lambda: V.dop(cirq.with_measurement_key_mapping(op, m2)))
+    tr['resolve'] = attempt(lambda: V.dop(cirq.resolve_parameters(
+        op, {V.sympy.Symbol(k): V.pval(v) for k, v in pm2.items()}, recursive=False)))
+    tr['rescope'] = attempt(lambda: V.dop(cirq.with_rescoped_keys(op, tuple(path), frozenset(V.key(b) for b in bind))))
+    tr['inv'] = attempt(lambda: V.dop(op ** -1))
+    return tr
+
+
+def struct_row(cirq, V, op, D, obs, g, m2, pm2, path, bind):
+    return struct_row_text(dict(rec=D, obs=obs, g=sorted(g.items()), m2=sorted(m2.items()), pm2=sorted(pm2.items()), path=path,
+                                bind=bind, tr=transforms(cirq, V, op, g, m2, pm2, path, bind)))
+
+
 def struct_stream(ctx, cirq, V, n, unroll_n=60):
     rng = ctx.rng
     gen = Gen(rng)
@@ -657,13 +687,7 @@ def struct_stream(ctx, cirq, V, n, unroll_n=60):
             if rng.random() < 0.6:
                 j = rng.randint(0, len(path))
                 bind.append((tuple(path[:j]), x))
-        tr = {}
-        tr['qmap'] = attempt(lambda: V.dop(op.transform_qubits(lambda q: V.q(g.get(q.x, q.x)))))
-        tr['kmap'] = attempt(lambda: V.dop(cirq.with_measurement_key_mapping(op, m2)))
-        tr['resolve'] = attempt(lambda: V.dop(cirq.resolve_parameters(
-            op, {V.sympy.Symbol(k): V.pval(v) for k, v in pm2.items()}, recursive=False)))
-        tr['rescope'] = attempt(lambda: V.dop(cirq.with_rescoped_keys(op, tuple(path), frozenset(V.key(b) for b in bind))))
-        tr['inv'] = attempt(lambda: V.dop(op ** -1))
+        tr = transforms(cirq, V, op, g, m2, pm2, path, bind)
         rows.append(dict(rec=D, obs=obs, g=sorted(g.items()), m2=sorted(m2.items()), pm2=sorted(pm2.items()), path=path,
                          bind=bind, tr=tr))
         dd = s_depth(D)
@@ -676,19 +700,7 @@ def struct_stream(ctx, cirq, V, n, unroll_n=60):
         spec_struct(ctx, cirq, V, op, D, obs, do_unroll=(len(rows) <= unroll_n))
         spec_commute(ctx, cirq, V, op, D, g, m2, pm2, path, bind)
     # ---- the model, evaluated on the same records
-    pairs = lambda l, fa, fb: gL(l, lambda p: f'({fa(p[0])}, {fb(p[1])})')
-    lines = []
-    for r in rows:
-        o, t = r['obs'], r['tr']
-        lines.append('(' + ', '.join([
-            gOp(r['rec']),
-            '(' + ', '.join([gRes(o['shallow'], gCirc), gRes(o['deep'], gCirc), gRes(o['mkeys'], lambda l: gL(l, gK)),
-                             gRes(o['ckeys'], lambda l: gL(l, gK)), gRes(o['pnames'], lambda l: gL(l, gS)),
-                             gL(o['qubits'], Z), gB(o['is_meas']), gRes(o['names'], lambda l: gL(l, gS))]) + ')',
-            '(' + ', '.join([pairs(r['g'], Z, Z), pairs(r['m2'], gS, gS), pairs(r['pm2'], gS, gP), gL(r['path'], gS),
-                             gL(r['bind'], gK)]) + ')',
-            '(' + ', '.join([gRes(t['qmap'], gOp), gRes(t['kmap'], gOp), gRes(t['resolve'], gOp), gRes(t['rescope'], gOp),
-                             gRes(t['inv'], gOp)]) + ')']) + ')')
+    lines = [struct_row_text(r) for r in rows]
     CH = 60
     bad_all = {}
     for ci in range(0, len(lines), CH):
@@ -1056,9 +1068,13 @@ def spec_commute(ctx, cirq, V, op, D, g, m2, pm2, path, bind):
              ('rescope', lambda: cirq.with_rescoped_keys(op, tuple(path), B).mapped_circuit(deep=True),
               lambda: cirq.with_rescoped_keys(flat, tuple(path), B), True),
              ('inverse', lambda: (op ** -1).mapped_circuit(deep=True), lambda: cirq.inverse(flat), False)]
+    late = late_bound(cirq, flat)
     for name, lhs, rhs, exact in cases:
         if name == 'key-path-prefix' and not closed:
             continue
+        if name == 'rescope' and late:
+            continue    # a control that is unbound where it stands but whose name is measured later (loop-carried key):
+                        # the single loop is scoped once, a flat circuit is scoped as straight-line code
         a, b = attempt(lhs), attempt(rhs)
         if a[0] != 'ok' and b[0] != 'ok':
             continue
@@ -1078,6 +1094,19 @@ def spec_commute(ctx, cirq, V, op, D, g, m2, pm2, path, bind):
                           f'({a[1] if a[0] != "ok" else ""} / {b[1] if b[0] != "ok" else ""}) for {op!r}'[:1800] +
                           f' with g={g} m2={m2} pm2={pm2} path={path} bind={bind}', rep)
     ctx.streams['spec:commute'] += 1
+
+
+def late_bound(cirq, flat):
+    seen, free = set(), set()
+    for op in flat.all_operations():
+        for k in cirq.control_keys(op):
+            if str(k) not in seen:
+                free.add(k.name)
+        for k in cirq.measurement_key_objs(op):
+            if k.name in free:
+                return True
+            seen.add(str(k))
+    return False
 
 
 def subs_of(D):
@@ -1321,6 +1350,81 @@ def until_stream(ctx, cirq, V, n):
 
 
 # ----------------------------------------------------------------------------------------------------------------
+# stream 6: scoping templates whose outcome is known independently of any rescoping code
+#   T1 shadowing: an inner measurement of `a` hides the outer `a` for the controls that follow it in the sub-circuit
+#   T2 no capture of later keys: a control that precedes the inner measurement of `a` reads the enclosing `a`
+def scope_desc(rng):
+    kind = rng.choice(['T1', 'T2'])
+    k = rng.choice([1, 2, 3])
+    ids = rng.random() < 0.5
+    opts = {}
+    if ids:
+        opts['repetition_ids'] = rng.sample(['x', 'y', 'w'], k) if rng.random() < 0.5 else None
+        opts['use_repetition_ids'] = True
+    if rng.random() < 0.4:
+        opts['parent_path'] = rng.choice([['p'], ['p', 'r']])
+    inner = {}
+    if rng.random() < 0.4:
+        inner = rng.choice([dict(repetition_ids=['z']), dict(parent_path=['s']), dict(use_repetition_ids=True, repetitions=1)])
+    return dict(kind=kind, v0=rng.random() < 0.5, v1=rng.random() < 0.5, k=k, ids=ids, opts=opts, nest=rng.random() < 0.5, inner=inner)
+
+
+def scope_build(cirq, d):
+    q0, q1, q2 = cirq.LineQubit.range(3)
+    fixo = lambda o: {k_: (tuple(v) if k_ == 'parent_path' else v) for k_, v in o.items()}
+    kind, v0, v1, k, ids = d['kind'], d['v0'], d['v1'], d['k'], d['ids']
+    ctl = cirq.X(q2).with_classical_controls('a')
+    if d['nest']:
+        ctl = cirq.CircuitOperation(cirq.FrozenCircuit(ctl), **fixo(d['inner']))
+    prep = [cirq.X(q1)] if v1 else []
+    if kind == 'T1':
+        body = [cirq.Moment(prep), cirq.Moment(cirq.measure(q1, key='a')), cirq.Moment(ctl)]
+    else:
+        body = [cirq.Moment(ctl), cirq.Moment(prep), cirq.Moment(cirq.measure(q1, key='a'))]
+    sub = cirq.CircuitOperation(cirq.FrozenCircuit(body), repetitions=k, **fixo(d['opts']))
+    circuit = cirq.Circuit(([cirq.Moment(cirq.X(q0))] if v0 else []) +
+                           [cirq.Moment(cirq.measure(q0, key='a')), cirq.Moment(sub), cirq.Moment(cirq.measure(q2, key='out'))])
+    # expected value of `out`, from the meaning of the circuit
+    b1 = b2 = 0
+    last = int(v0)
+    same_key = not ids and 'parent_path' not in d['opts']     # the inner measurements append records to the enclosing key `a` itself
+    for _ in range(k):
+        if kind == 'T1':
+            b1 ^= int(v1)
+            b2 ^= b1
+        else:
+            b2 ^= (last if same_key else int(v0))
+            b1 ^= int(v1)
+            if same_key:
+                last = b1
+    return circuit, sub, b2
+
+
+def scope_unrolled(cirq, circuit, sub):
+    return cirq.Circuit(m for mo in circuit for m in (sub.mapped_circuit(deep=True).moments if sub in mo.operations else [mo]))
+
+
+def scope_stream(ctx, cirq, V, n):
+    rng = ctx.rng
+    for _ in range(n):
+        if over_time(ctx):
+            break
+        desc = scope_desc(rng)
+        kind = desc['kind']
+        circuit, sub, want = scope_build(cirq, desc)
+        got = {}
+        for name, c in (('wrapped', circuit), ('unrolled', scope_unrolled(cirq, circuit, sub))):
+            r = attempt(lambda: int(cirq.Simulator().run(c, repetitions=1).records['out'][0][-1][0]))
+            got[name] = r[1] if r[0] == 'ok' else r[1:]
+        ctx.count('sim:scoping:' + kind, desc, True, sample=dict(case=desc, expected_out=want, got=got))
+        for name, g in got.items():
+            if g != want:
+                ctx.violation(f'scoping:{kind}:{name}', f'scoping template {kind} {desc}: measurement `out` is {g} in the {name} circuit, '
+                              f'the control must read {"the inner" if kind == "T1" else "the enclosing"} measurement of a: expected {want}\n{circuit}',
+                              dict(kind='scope', desc=desc, expected=want))
+
+
+# ----------------------------------------------------------------------------------------------------------------
 def run(ctx):
     cirq = env.import_cirq()
     V = Vocab(cirq)
@@ -1340,25 +1444,55 @@ def run(ctx):
     unitary_stream(ctx, cirq, V, 100 if quick else 1500)
     sim_stream(ctx, cirq, V, 120 if quick else 1500)
     until_stream(ctx, cirq, V, 40 if quick else 400)
+    scope_stream(ctx, cirq, V, 60 if quick else 600)
+
+
+def norm_key(k):
+    return (tuple(k[0]), k[1])
+
+
+def norm_c(c):
+    if c[0] == 'sym':
+        return ('sym', c[1], [norm_key(k) for k in c[2]])
+    return (c[0], norm_key(c[1])) + tuple(c[2:])
+
+
+def norm_rec(o):
+    """A record read back from JSON (lists) in the tuple form the builders expect."""
+    o = dict(o)
+    if o['t'] == 'leaf':
+        o['mk'] = [norm_key(k) for k in o['mk']]
+        o['cs'] = [norm_c(c) for c in o['cs']]
+        o['ps'] = [tuple(p) for p in o['ps']]
+        return o
+    o['c'] = [[norm_rec(x) for x in m] for m in o['c']]
+    o['qm'] = [tuple(p) for p in o['qm']]
+    o['km'] = [tuple(p) for p in o['km']]
+    o['pm'] = [(p[0], tuple(p[1])) for p in o['pm']]
+    o['ext'] = [norm_key(k) for k in o['ext']]
+    if isinstance(o['reps'], list):
+        o['reps'] = tuple(o['reps'])
+    if o['until'] is not None:
+        o['until'] = norm_c(o['until'])
+    return o
 
 
 def replay(ctx, data):
     cirq = env.import_cirq()
     V = Vocab(cirq)
     k = data.get('kind')
-    tup = lambda x: (tuple(x[0]), x[1])
+    SHRINK.update(t0=time.time(), spent=SHRINK['limit'])       # no minimisation during replay
     if k == 'key':
-        key, p, m = tup(data['key']), tuple(data['path']), [tuple(x) for x in data['key_map']]
+        key, p, m = norm_key(data['key']), tuple(data['path']), [tuple(x) for x in data['key_map']]
         K = V.key(key)
         a = V.dkey(cirq.with_key_path_prefix(K, p))
         b = V.dkey(cirq.with_measurement_key_mapping(K, dict(m)))
         print('prefix ->', a, ' map ->', b)
         return a == (p + key[0], key[1]) and b == (key[0], dict(m).get(key[1], key[1]))
     if k == 'cond':
-        c = data['cond']
-        c = ('sym', c[1], [tup(x) for x in c[2]]) if c[0] == 'sym' else (c[0], tup(c[1])) + tuple(c[2:])
+        c = norm_c(data['cond'])
         p, m = tuple(data['path']), [tuple(x) for x in data['key_map']]
-        bind = [tup(b) for b in data['bindable']]
+        bind = [norm_key(b) for b in data['bindable']]
         C = V.cond(c)
         outs = [V.dcond(cirq.with_measurement_key_mapping(C, dict(m))), V.dcond(cirq.with_key_path_prefix(C, p)),
                 V.dcond(cirq.with_rescoped_keys(C, p, frozenset(V.key(b) for b in bind)))]
@@ -1366,5 +1500,63 @@ def replay(ctx, data):
         for g, w in zip(outs, want):
             print('got', g, 'expected', w)
         return all(norm_cond(g) == norm_cond(w) for g, w in zip(outs, want))
+    if k == 'broken':
+        print('no input: the listed obligations / correspondences did not check:', [b['name'] for b in data['broken']])
+        return False
+    if k == 'scope':
+        circuit, sub, want = scope_build(cirq, data['desc'])
+        print(circuit)
+        ok = True
+        for name, c in (('wrapped', circuit), ('unrolled', scope_unrolled(cirq, circuit, sub))):
+            r = attempt(lambda: int(cirq.Simulator().run(c, repetitions=1).records['out'][0][-1][0]))
+            print(name, 'out =', r[1:], 'expected', want)
+            ok = ok and r[0] == 'ok' and r[1] == want
+        return ok
+    D = norm_rec(data['rec'])
+    op = V.sub(D)
+    print(repr(op))
+    if k == 'unroll':
+        d = unroll_defect(cirq, V, data['fn'], D)
+        print(data['fn'], '->', d or 'trace-equivalent to mapped_circuit(deep=True)')
+        return d == ''
+    if k == 'unitary':
+        d = unitary_defect(cirq, V, D)
+        print('unitary:', d or 'equal to the unrolled circuit')
+        return d == ''
+    if k in ('sim', 'until'):
+        prep = [[norm_rec(o) for o in m] for m in data['prep']]
+        if k == 'sim':
+            d, a, b = sim_defect(cirq, V, prep, D, None if data.get('ctl') is None else norm_c(data['ctl']))
+            print('records:', a[1:], 'vs', b[1:])
+        else:
+            d = until_defect(cirq, V, prep, D)
+            print('repeat_until:', d or 'stops after the least number of passes')
+        return d in ('', 'skip')
+    if k == 'struct':
+        which = data.get('which')
+        g = dict(tuple(x) for x in data.get('g', []))
+        m2 = dict(tuple(x) for x in data.get('m2', []))
+        pm2 = {x[0]: tuple(x[1]) for x in data.get('pm2', [])}
+        path, bind = list(data.get('path', [])), [norm_key(b) for b in data.get('bind', [])]
+        sub = runner.Ctx(ctx.prop, ctx.tier, ctx.seed, ctx.level)
+        sub.known = []
+        obs = observe(cirq, V, op)
+        if which in ('spec', 'deep') or which not in dict(STRUCT_PREDS):
+            spec_struct(sub, cirq, V, op, D, obs, do_unroll=False)
+            spec_commute(sub, cirq, V, op, D, g, m2, pm2, path, bind)
+            for v in sub.violations:
+                print('FAILS:', v['signature'], '-', v['what'][:400])
+            if which not in dict(STRUCT_PREDS):
+                return not sub.violations
+        # model vs implementation on this record
+        row = struct_row(cirq, V, op, D, obs, g, m2, pm2, path, bind)
+        defs = STRUCT_DEFS + 'Definition rows_0 : list row_t := [\n' + row + '].\n'
+        preds = [(n, p) for n, p in STRUCT_PREDS if which in (n, 'spec', 'deep')] or STRUCT_PREDS
+        for j in range(1, len(preds)):
+            defs += f'Definition rows_{j} := rows_0.\n'
+        bad = run_coq(ctx, 'replay', defs, [(n, None, p) for n, p in preds])
+        bad = {n: v for n, v in bad.items() if v}
+        print('model vs implementation:', 'agree' if not bad else f'differ on {sorted(bad)}')
+        return not bad and not sub.violations
     print('nothing to replay for kind', k)
     return False
